@@ -93,6 +93,7 @@ func ndPattern(d int) any {
 // HarnessC01_match: match(obj, pat) agrees with the documented pattern
 // semantics for every object/pattern of depth <= 2 (quick: pattern depth 1).
 func HarnessC01_match() {
+	c01Tokens()
 	pd := 1
 	if vTier() > 0 {
 		pd = 2
@@ -430,6 +431,10 @@ func ndChildMap(d int, maxList int) map[string]any {
 	return m
 }
 
+// c01Tokens: string leaves include texts that print like an int / a bool
+// ("1" is not 1, "true" is not true).
+func c01Tokens() { vSetTokens("s0", "1", "true", "s3") }
+
 func c01Check(parent, child any) {
 	vObserve("parent", parent)
 	vObserve("child", child)
@@ -456,6 +461,7 @@ func c01Check(parent, child any) {
 
 // HarnessC01_mapmap: map over map, values of depth <= 1 on both sides.
 func HarnessC01_mapmap() {
+	c01Tokens()
 	if vTier() == 0 {
 		// quick: scalar values on the parent side, child values of depth <= 1
 		parent := ndMap(1, keysAB, 0, ndParentLeaf)
@@ -475,6 +481,7 @@ func HarnessC01_mapmap() {
 // first; the child edits at the bottom (recursion into a key depends only on
 // that key's two values).
 func HarnessC01_spine() {
+	c01Tokens()
 	inner := ndMap(1, keysAB, 1, ndParentLeaf)
 	parent := map[string]any{"a": map[string]any{"b": inner}, "b": ndParentLeaf()}
 	cinner := ndChildMap(1, 1)
@@ -484,6 +491,7 @@ func HarnessC01_spine() {
 
 // HarnessC01_listlist: list over list with every directive entry form.
 func HarnessC01_listlist() {
+	c01Tokens()
 	pl := 2
 	cl := 1
 	if vTier() > 0 {
@@ -495,6 +503,7 @@ func HarnessC01_listlist() {
 // HarnessC01_listpair: two editing entries ($match / $value / $delete /
 // append) applied in sequence to a parent list of <= 2 entries.
 func HarnessC01_listpair() {
+	c01Tokens()
 	if vTier() == 0 {
 		// quick: two $match entries over exactly two parent entries
 		parent := []any{}
@@ -548,6 +557,7 @@ func c01ListList(pl int, mkChild func() []any) {
 
 // HarnessC01_kinds: the kind matrix {nil, scalar, {}, map, [], list}^2.
 func HarnessC01_kinds() {
+	c01Tokens()
 	gen := func(child bool) any {
 		sc := ndScalar
 		if child {
